@@ -140,17 +140,34 @@ def rule_ex2(A: Analysis, rep, F: ExecFacts):
               "Operation.reset_waiting_on does not assign len(self._exe_deps) unconditionally")
     # field inventory: _waiting_on written only in __init__, reset, _decrement
     writers = sorted({f.fq.rsplit(".", 1)[1] for (f, _s, _v) in A.field_stores("conductor.execution.ops.operation.Operation", "_waiting_on")})
-    rep.check(writers == ["__init__", "_decrement_waiting_on", "reset_waiting_on"], "EX2", "waiting_on writers", r.node,
+    has_helper = "conductor." + OP + "_decrement_waiting_on" in A.prog.functions
+    # the decrement is a helper of its own, or written out in the loop over the dependents (other objects' counters
+    # are then written as `<dependent>._waiting_on`, which the field inventory does not attribute to `self`)
+    rep.check(writers == (["__init__", "_decrement_waiting_on", "reset_waiting_on"] if has_helper else ["__init__", "decrement_deps_of_waiting_on", "reset_waiting_on"]), "EX2", "waiting_on writers", r.node,
               "counter written only by init/reset/decrement", "unexpected writers of _waiting_on: %s" % writers, deep=False)
-    d = A.fn(OP + "_decrement_waiting_on")
-    augs = [s for s in walk_local(d.node) if isinstance(s, ast.AugAssign) and norm(s.target) == "self._waiting_on"]
-    okd = len(augs) == 1 and isinstance(augs[0].op, ast.Sub) and norm(augs[0].value) == "1" and augs[0] in d.node.body
-    rep.check(okd, "EX2", "decrement by exactly 1", d.node, "each finished dependency subtracts 1",
-              "_decrement_waiting_on does not subtract exactly 1 unconditionally")
     dd = A.fn(OP + "decrement_deps_of_waiting_on")
-    lp = _only_stmt_loop(dd, {"self.deps_of", "self._deps_of"}, "_decrement_waiting_on")
+    if has_helper:
+        d = A.fn(OP + "_decrement_waiting_on")
+        augs = [s for s in walk_local(d.node) if isinstance(s, ast.AugAssign) and norm(s.target) == "self._waiting_on"]
+        okd = len(augs) == 1 and isinstance(augs[0].op, ast.Sub) and norm(augs[0].value) == "1" and augs[0] in d.node.body
+        rep.check(okd, "EX2", "decrement by exactly 1", d.node, "each finished dependency subtracts 1",
+                  "_decrement_waiting_on does not subtract exactly 1 unconditionally")
+        lp = _only_stmt_loop(dd, {"self.deps_of", "self._deps_of"}, "_decrement_waiting_on")
+    else:
+        lp = None
+        for st in dd.node.body:
+            if isinstance(st, ast.For) and norm(st.iter) in ("self.deps_of", "self._deps_of") and not st.orelse and isinstance(st.target, ast.Name):
+                augs = [b for b in st.body if isinstance(b, ast.AugAssign) and norm(b.target) == "%s._waiting_on" % st.target.id]
+                plain = all(isinstance(b, (ast.AugAssign, ast.Assert, ast.Expr)) for b in st.body)
+                if len(augs) == 1 and isinstance(augs[0].op, ast.Sub) and norm(augs[0].value) == "1" and plain:
+                    lp = st
+        other = [s for f in A.prog.scan_functions if f.fq != dd.fq for s in walk_local(f.node)
+                 if isinstance(s, (ast.AugAssign, ast.Assign)) and any(isinstance(t, ast.Attribute) and t.attr == "_waiting_on" and norm(t.value) != "self"
+                                                                       for t in ([s.target] if isinstance(s, ast.AugAssign) else s.targets))]
+        rep.check(lp is not None and not other, "EX2", "decrement by exactly 1", dd.node, "each finished dependency subtracts 1",
+                  "the dependents' counters are not decremented by exactly 1 each, only here")
     rep.check(lp is not None, "EX2", "decrement all dependents", dd.node, "every dependent is decremented",
-              "decrement_deps_of_waiting_on does not call _decrement_waiting_on() on every element of deps_of unconditionally")
+              "decrement_deps_of_waiting_on does not decrement every element of deps_of unconditionally")
     pr = A.fn("execution.plan.ExecutionPlan.reset_waiting_on")
     lp2 = _only_stmt_loop(pr, {"self.all_ops"}, "reset_waiting_on")
     rep.check(lp2 is not None, "EX2", "plan resets all ops", pr.node, "every op of the plan is reset",
@@ -551,15 +568,28 @@ def rule_ex7(A: Analysis, rep, F: ExecFacts):
     # return value = error_occurred and stop_on_first_error, error flag set only in the ConductorError handler
     rets = [n.ast for n in g.nodes if n.kind == "stmt" and isinstance(n.ast, ast.Return)]
     ok = False
-    if len(rets) == 1 and rets[0].value is not None:
-        d = A.dnf(rets[0].value, True, fi, inline=False)
-        if len(d) == 1 and len(d[0]) == 2 and ("t(stop_on_first_error)", True) in d[0]:
-            flag = [a for a, pol in d[0] if a != "t(stop_on_first_error)"][0][2:-1]
-            defs = A.defs(fi, flag)
-            vals = sorted(norm(x.value) for x in defs if isinstance(x, ast.Assign))
-            true_in_handler = all(any(isinstance(a, ast.ExceptHandler) and a.type is not None and "ConductorError" in norm(a.type)
-                                      for a in _ancestors(x)) for x in defs if isinstance(x, ast.Assign) and norm(x.value) == "True")
-            ok = vals == ["False", "True"] and true_in_handler
+    # the value returned, over every return and the condition it is reached under, as a function of (error flag, stop flag)
+    stop_p = fi.params[2] if len(fi.params) > 2 else "stop_on_first_error"
+    flags = sorted({t.id for s_ in walk_local(fi.node) if isinstance(s_, ast.Assign) and norm(s_.value) in ("True", "False")
+                    for t in s_.targets if isinstance(t, ast.Name)})
+    flags = [f_ for f_ in flags if sorted(norm(x.value) for x in A.defs(fi, f_) if isinstance(x, ast.Assign)) == ["False", "True"]]
+    if len(flags) == 1 and rets and all(r_.value is not None for r_ in rets):
+        flag = flags[0]
+        keep_ = ("t(%s)" % flag, "t(%s)" % stop_p)
+        pairs_ = []
+        for r_ in rets:
+            for c in A.path_guards(g, g.entry, g.node_of(r_), fi):
+                c = frozenset(a for a in c if a[0] in keep_)
+                for pol in (True, False):
+                    for d in A.dnf(r_.value, pol, fi, inline=False):
+                        if all(a[0] in keep_ for a in d) and not any((a, not p_) in c for a, p_ in d):
+                            pairs_.append((c | d, pol))
+        from .selection import truth_table
+        mism, _n = truth_table(pairs_, {keep_[0]: "error", keep_[1]: "stop"}, lambda a: a["error"] and a["stop"])
+        defs = A.defs(fi, flag)
+        true_in_handler = all(any(isinstance(a, ast.ExceptHandler) and a.type is not None and "ConductorError" in norm(a.type)
+                                  for a in _ancestors(x)) for x in defs if isinstance(x, ast.Assign) and norm(x.value) == "True")
+        ok = mism is None and true_in_handler
     rep.check(ok, "EX7", "stop flag", fi.node, "returns `error ∧ stop_on_first_error`",
               "the wait step's return value is not `error_occurred and stop_on_first_error`")
     rep.expect_min("EX7", 2)
@@ -1163,8 +1193,18 @@ def _pool_is_permutation(e: ast.expr, n: int) -> bool:
 def rule_ex15(A: Analysis, rep, F: ExecFacts):
     stores = A.field_stores("conductor.execution.executor.Executor", "_available_slots")
     names = sorted(f.fq.rsplit(".", 1)[1] for (f, _s, _v) in stores)
-    rep.check(names == ["__init__", "_reset"], "EX15", "pool (re)built only in init/reset", None, "", "_available_slots assigned in %s" % names, deep=False)
+    rep.check(sorted(set(names)) == ["__init__", "_reset"], "EX15", "pool (re)built only in init/reset", None, "", "_available_slots assigned in %s" % names, deep=False)
+    # a store that every path overwrites before the function returns is a placeholder, not the pool
+    live = []
     for (f, s, v) in stores:
+        gf = A.cfg(f, "plain")
+        sn = gf.node_of(s)
+        others = [gf.node_of(s2) for (f2, s2, _v2) in stores if f2 is f and s2 is not s]
+        succ_ = [m for (m, lb) in sn.succ if not is_exc(lb)]
+        if others and succ_ and all(gf.all_paths_pass(m, gf.exit, others, skip_labels=is_exc) for m in succ_):
+            continue
+        live.append((f, s, v))
+    for (f, s, v) in live:
         tx = norm(v) if v is not None else "?"
         # the initial pool, evaluated for a few slot counts: a pure expression over list/range/reversed/sorted and
         # arithmetic on the slot count (nothing of the repository is executed)
